@@ -2,11 +2,12 @@
 # tools/runall.sh [tier] [ids...]: run the claimed checks one after the other, print exit code, time and verdict lines
 tier=${1:-quick}; shift
 cd /verif
+python3 tools/selfcheck.py || exit 3
 ids="$@"
 [ -z "$ids" ] && ids=$(python3 -c "import json; print(' '.join(c['property_id'] for c in json.load(open('MANIFEST.json'))['checks']))")
 for id in $ids; do
   s=$(date +%s)
-  out=$(./check $id --tier $tier 2>&1; echo "__rc=$?")
+  out=$(./check $id --tier $tier ${VERIF_SEED:+--seed $VERIF_SEED} 2>&1; echo "__rc=$?")
   rc=$(echo "$out" | grep -o '__rc=[0-9]*' | cut -d= -f2)
   e=$(( $(date +%s) - s ))
   echo "== $id rc=$rc ${e}s  KNOWN=$(echo "$out" | grep -c '^KNOWN-FINDING') VIOL=$(echo "$out" | grep -c '^VIOLATION')"
